@@ -263,17 +263,13 @@ macro_rules! reader_chunked {
 // @bound constructor pinned, payload and trailing bytes symbolic; every chunk size 1..=N of the underlying reader
 // @desc decoding from a stream that delivers short reads gives the same value and consumes the same bytes as decoding from the slice
 reader_chunked!(c20_chunked_u32, u32, 7, UINT, |a, b| a == b);
-// @tier thorough
-// @timeout 2400
-// @unwind 22
-reader_chunked!(c20_chunked_u64, u64, 11, ULONG, |a, b| a == b);
 reader_chunked!(c20_chunked_dec32, Dec32, 7, DEC32, |a, b| a.as_inner() == b.as_inner());
-// @tier thorough
-// @timeout 2400
-// @unwind 22
-reader_chunked!(c20_chunked_dec64, Dec64, 11, DEC64, |a, b| a.as_inner() == b.as_inner());
-// @tier thorough
-// @timeout 2400
-// @unwind 22
-reader_chunked!(c20_chunked_uuid, Uuid, 19, UUID, |a, b| a.as_inner() == b.as_inner());
 reader_chunked!(c20_chunked_timestamp, Timestamp, 11, TIMESTAMP, |a, b| a.milliseconds() == b.milliseconds());
+
+// @tier thorough
+// @timeout 2400
+// @unwind 22
+// @bound constructor pinned, payload and trailing bytes symbolic; every chunk size 1..=N of the underlying reader
+reader_chunked!(c20_chunked_u64, u64, 11, ULONG, |a, b| a == b);
+reader_chunked!(c20_chunked_dec64, Dec64, 11, DEC64, |a, b| a.as_inner() == b.as_inner());
+reader_chunked!(c20_chunked_uuid, Uuid, 19, UUID, |a, b| a.as_inner() == b.as_inner());
